@@ -38,6 +38,7 @@ import (
 	"strconv"
 	"strings"
 	"sync"
+	"sync/atomic"
 	"time"
 
 	"github.com/aperturerobotics/util/broadcast"
@@ -134,6 +135,7 @@ func exec(script []string, opt comp.Options) comp.Result {
 
 	var bc broadcast.Broadcast
 	x := 0 // guarded by bc
+	var inBody atomic.Int32 // bodies / predicate evaluations in progress (cbin logged, cbend not yet)
 
 	var calls []*call
 	var gates []hook.Gate
@@ -149,6 +151,7 @@ func exec(script []string, opt comp.Options) comp.Result {
 				// becomes a history line the model does not know, never a crash of the harness
 				defer func() {
 					if r := recover(); r != nil {
+						inBody.Store(0)
 						log.Add("cbpanic %d", c.id)
 						panics = false
 						if done != nil {
@@ -159,6 +162,7 @@ func exec(script []string, opt comp.Options) comp.Result {
 				// the body is harness code running under the mutex of the Broadcast: its start and end
 				// marks let the exclusion clause ("bodies never overlap") be checked on the history
 				log.Add("cbin %d", c.id)
+				inBody.Add(1)
 				if c.unpark != nil {
 					select {
 					case <-c.unpark:
@@ -184,6 +188,7 @@ func exec(script []string, opt comp.Options) comp.Result {
 				c.mu.Lock()
 				c.handles = hs
 				c.mu.Unlock()
+				inBody.Add(-1)
 				log.Add("cbend %d", c.id)
 				if done != nil {
 					done()
@@ -366,7 +371,11 @@ func exec(script []string, opt comp.Options) comp.Result {
 				pre = len(f) > 3 && f[3] == "pre"
 				cb = func(func(), func() <-chan struct{}) (bool, error) {
 					log.Add("cbin %d", c.id)
-					defer log.Add("cbend %d", c.id)
+					inBody.Add(1)
+					defer func() {
+						inBody.Add(-1)
+						log.Add("cbend %d", c.id)
+					}()
 					if c.widen > 0 {
 						time.Sleep(c.widen)
 					}
@@ -500,6 +509,10 @@ func exec(script []string, opt comp.Options) comp.Result {
 			openAll()
 			heldAtPreblock = false
 			comp.WaitQuiet(log, opt.Grace, 10*opt.Grace)
+			// a body that is still running is activity the harness knows about: not quiescent yet
+			for i := 0; i < 4 && inBody.Load() != 0; i++ {
+				comp.WaitQuiet(log, opt.Grace, 10*opt.Grace)
+			}
 			if log.NumPending() > 0 {
 				tag("blocked-at-quiesce")
 			}
